@@ -33,7 +33,7 @@ func TestRaceFree(t *testing.T) {
 			sys := newSystem(kind, n, nil)
 			names := webdavOps
 			if kind != "webdav" {
-				names = []string{"find", "multiget", "query", "get", "put"}
+				names = []string{"find", "multiget", "query", "get", "put", "options"}
 			}
 			var wg sync.WaitGroup
 			for g := 1; g <= n; g++ {
